@@ -17,7 +17,7 @@ META = {
     "rule": (
         "exhaustive: every single-permutation basis of length <= 4 x every direction word of the pin-sequence "
         "language M of length 0..L (L = 9 quick, 10 thorough), through make_dfa_for_perm / make_dfa_for_basis / "
-        "_from_pinwords / _from_db; generated: bases of 1-3 permutations of length <= 4 (5 thorough) biased to pin "
+        "_from_pinwords / _from_db; every pair of permutations of length <= 3 (4 thorough) for the finiteness verdict; generated: bases of 1-3 permutations of length <= 4 (5 thorough) biased to pin "
         "permutations. Oracle: a word w of M with |w| >= 2 encodes the strict pin word m_to_sp(w); accepted iff the "
         "reference model says decode(that word) contains a basis element; words shorter than 2 encode nothing. "
         "has_finite_pinperms is compared with an own cycle search on the product (M x complement) built from the "
@@ -303,6 +303,15 @@ def shard_exhaustive(acc, shard, nshards, max_len, L):
             _run_basis(acc, basis, L if basis != [[]] else min(L, 7))
 
 
+def shard_pairs_finite(acc, shard, nshards, max_len):
+    """finiteness verdict (and database equivalence) for every pair of permutations of length <= max_len"""
+    os.chdir(engine.fresh_dir("dfa"))
+    perms = [list(p) for p in ref.perms_upto(max_len, 1)]
+    for i, (a, b) in enumerate(itertools.combinations(perms, 2)):
+        if i % nshards == shard:
+            acc.record("finite", check_finite, {"basis": [a, b]})
+
+
 def pin_perms(n):
     return sorted(pin.words_of_perm_table(n))
 
@@ -357,7 +366,9 @@ def shard_generated(acc, shard, nshards, n_bases, max_len, L):
 def run(acc, tier):
     if tier == "quick":
         engine.pmap(acc, shard_exhaustive, extra=(4, 9))
+        engine.pmap(acc, shard_pairs_finite, extra=(3,))
         engine.pmap(acc, shard_generated, extra=(6, 4, 8))
     else:
         engine.pmap(acc, shard_exhaustive, extra=(4, 10))
+        engine.pmap(acc, shard_pairs_finite, extra=(4,))
         engine.pmap(acc, shard_generated, extra=(25, 5, 9))
